@@ -324,9 +324,13 @@ pub fn check(args: &Args, prop: &str) -> Outcome {
     // 1. exact-boundary witnesses
     let rt = paused_rt();
     let mut nw = 0;
+    let miri_w = args.has("--miri");
     for phi in [1.0, 2.0, 4.0, 0.5] {
         for interval in [Duration::from_secs(1), Duration::from_millis(500), Duration::from_secs(4)] {
             for (window, beats) in [(1000usize, 3usize), (1000, 40), (2, 7), (1, 5), (10, 10), (10, 11)] {
+                if miri_w && !(window == 2 && interval == Duration::from_secs(1)) {
+                    continue;
+                }
                 let out = rt.block_on(exact_witness(phi, interval, window, beats));
                 nw += 1;
                 ev.counters.merge(&out.c);
@@ -341,15 +345,16 @@ pub fn check(args: &Args, prop: &str) -> Outcome {
     }
     ev.evaluations += nw;
     // 2. generated histories
-    let n = args.n(200_000, 10_000_000);
-    let max_events = args.tier.pick(120, 400);
+    let miri = args.has("--miri");
+    let n = if miri { 12 } else { args.n(200_000, 10_000_000) };
+    let max_events = if miri { 30 } else { args.tier.pick(120, 400) };
     let res = par_run(n, args.threads, |i| {
         if deadline.expired() {
             return None;
         }
         let rt = paused_rt();
         // every 500th history is long (up to 2,000 arrivals)
-        let me = if i % 500 == 0 { 2000 } else { max_events };
+        let me = if i % 500 == 0 && !miri { 2000 } else { max_events };
         Some(catch(|| rt.block_on(random_history(seed, i, me))))
     });
     let done = res.len() as u64;
